@@ -11,6 +11,12 @@ sys.path.insert(0, __file__.rsplit('/', 1)[0])
 import parserutil  # noqa: E402
 from core import exc_name  # noqa: E402
 
+try:
+	import resource
+	resource.setrlimit(resource.RLIMIT_AS, (3 << 30, 3 << 30))      # a memory bomb ends as MemoryError in here, not as a dead sandbox
+except Exception:
+	pass
+
 for i, line in enumerate(sys.stdin):
 	side, hexs, mode = line.split()
 	data = bytes.fromhex(hexs)
@@ -25,7 +31,7 @@ for i, line in enumerate(sys.stdin):
 		else:
 			sm.parse(data)
 		out = 'ok'
-	except Exception as e:
+	except BaseException as e:
 		out = exc_name(e)
 	sys.stdout.write('done %d %s %.4f\n' % (i, out, time.time() - t0))
 	sys.stdout.flush()
